@@ -84,15 +84,17 @@ M2 == {"top", "nested"}
 
 \* F1 who signed with what, and what the header claims
 F1(D) == {Row(c, [BaseTok(c) EXCEPT !.skey = k, !.salg = a, !.halg = h, !.method = m])
-         : c \in (IF D THEN Cfgs(Algs, K3, {"default"}, P2, {"top"}) ELSE Cfgs(Algs, K3, {"default"}, {"value"}, {"top"})),
+         : c \in (IF D THEN Cfgs(Algs, K3, G2, P2, {"top"}) ELSE Cfgs(Algs, K3, {"default"}, {"value"}, {"top"})),
            k \in SKeys, a \in Algs, h \in HAlgs, m \in (IF D THEN {"GET", "POST"} ELSE {"GET"})}
 \* F2 every mutation of the token string
 F2(D) == {Row(c, [BaseTok(c) EXCEPT !.mut = mu, !.skey = k, !.method = m])
          : c \in (IF D THEN Cfgs(Algs, K3, G2, {"value"}, M2) ELSE Cfgs(Algs, {"k1"}, G2, {"value"}, {"top"})),
-           mu \in Muts, k \in (IF D THEN {"same", "other", "near"} ELSE {"same", "other"}),
+           mu \in (IF D THEN Muts ELSE Muts \ {"flipall1", "flipall2", "flipall3"}), k \in (IF D THEN {"same", "other", "near"} ELSE {"same", "other"}),
            m \in (IF D THEN Methods ELSE {"GET", "OPTIONS"})}
    \cup {Row(c, [BaseTok(c) EXCEPT !.mut = mu, !.method = m])
          : c \in Cfgs(Algs, {"k2"}, {"default"}, P2, {"top"}), mu \in {"none", "flip3", "extra", "trunc"}, m \in {"POST", "HEAD"}}
+   \cup {Row(c, [BaseTok(c) EXCEPT !.mut = mu])      \* quick: every symbol at every position of the signature, one configuration per algorithm
+         : c \in Cfgs(Algs, {"k3"}, {"default"}, {"value"}, {"top"}), mu \in {"flipall3"}}
 \* F2v every transport
 F2v(D) == {Row(c, [BaseTok(c) EXCEPT !.via = v, !.skey = k, !.method = m])
          : c \in (IF D THEN Cfgs(Algs, K3, G2, P2, M2) ELSE Cfgs(Algs, {"k1"}, G2, {"value"}, {"top"})),
